@@ -162,7 +162,15 @@ def run_case(c):
     found = []
     phs = json.dumps(tb).count(c["ph"])
     if phs == 0:
-        return {"id": c["id"], "ok": False, "kind": "lost", "why": "even an inert body (the placeholder word) does not reach the tree in this context"}
+        js = json.dumps(tb)
+        mk = re.search(r"\\u007fUNIQ-[a-z0-9]+-[0-9]+-[0-9a-f]+-QINU\\u007f", js)
+        extra = ""
+        if mk:
+            extra = ": a raw marker %s is left in the tree (the region was protected in one marker table and looked up in another)" % mk.group(0).replace("\\u007f", "\\x7f")
+        elif c["tag"] in ("nowiki", "pre", "math", "source", "syntaxhighlight", "timeline") and "QZ" in js and "QZ" in c["raw_ph"] + json.dumps(c.get("db_ph")):
+            n_written = (c["raw_ph"] + json.dumps(c.get("db_ph") or {})).count("QZ")
+            extra = ": the body of ANOTHER region of the page stands there instead ('QZ' is written %d times on the page and its database, occurs %d times in the tree)" % (n_written, js.count("QZ"))
+        return {"id": c["id"], "ok": False, "kind": "lost", "why": "even an inert body (the placeholder word) does not reach the tree in this context" + extra}
     # absolute part of the oracle: with an inert body the tag syntax itself never reaches the tree
     # (skipped on pages where ANOTHER region legitimately delivers such text verbatim, e.g. <nowiki><math>x</math></nowiki>)
     leak = None if c.get("noleak") else re.search(r"</?%s\b[^\"]{0,40}" % re.escape(c["tag"]), json.dumps(tb), re.I)
